@@ -684,7 +684,7 @@ func buildCases(baseName string, mk func() *GProg, r *vl.Rng, exhaustive bool, p
 		for _, rule := range rules {
 			ids := byRule[rule]
 			got := 0
-			if rule == "typedef_cycle_const_ident" && (!crashOnRandom || !r.Chance(25)) {
+			if rule == "typedef_cycle_const_ident" && (!crashOnRandom || !r.Chance(10)) {
 				continue // quick tier: only on the fixed program (each run has to grow a 1 GB stack)
 			}
 			for attempt := 0; attempt < 12 && got < perRule; attempt++ {
